@@ -138,7 +138,7 @@ func (rn *runner) run(cs *Case) (rdcat.Resp, []rdcat.Finding) {
 	if cs.ValidityOnly {
 		var keep []rdcat.Finding
 		for _, f := range fs {
-			if f.Rule == "invalid-json" || f.Rule == "trailing-data" {
+			if f.Rule == "invalid-json" || f.Rule == "trailing-data" || f.Rule == "shape" {
 				keep = append(keep, f)
 			}
 		}
